@@ -202,6 +202,25 @@ EXTRA6 = {
  'C19': 'Per-variable lists are read at the loop index; column names come from split(); a made-up revision date has the format the reader parses.',
  'C20': 'The within-row differences cover every column; nothing is stored into the decoded array after the cumulative sums; levels between 0 and 1 with five decimals format back.',
 }
+# clauses added after the seventh held-out wave
+EXTRA7 = {
+ 'C01': 'slice_dim measures the new length on the sliced values; the last store of sliceDimensions keeps the reshape fallback.',
+ 'C02': 'No slice with the bare stop index + 1; nothing is stored into a selector array; anyisarray is evaluated on 5 cases.',
+ 'C03': 'The per-axis loop of applyAlongDimensions runs from the last axis to the first.',
+ 'C05': 'values= view chains of an input variable in splitdim are aliases.',
+ 'C06': 'eval never stores into an existing variable; the default --coordkeys keeps every pinned key.',
+ 'C07': 'The type code of a values= variable is the dtype char of the values; convert / addVariables end with an unconditional sync(); the netcdf reader never switches auto-scaling off.',
+ 'C09': 'LAY is max(header nz, 1).',
+ 'C12': 'getTimes drops tzinfo only after astimezone.',
+ 'C13': 'time_step of a record reader is a timediff of stamps; getArray keeps no work array on the reader; the species wrap test is spc > nspec; step detection never uses an ordering test.',
+ 'C14': 'No open-ended strided slice feeds TFLAG in the temperature / height_pressure getters; records per step are not unique counts.',
+ 'C15': 'pncopen pops its own options before the sniffers see the keywords.',
+ 'C16': 'The out-of-range action triggers on any value outside; no tolerance is added before truncation to a cell number.',
+ 'C17': 'exp under the same test as log; VGLVLS is not read again after the converted edges were bound.',
+ 'C18': 'add_lat reads STARTJ, add_lon STARTI; the per-tracer block table is keyed by (tau0, tau1).',
+ 'C19': 'Nothing is stored into a per-variable value array after it is built; a data cell that holds the missing code is written with every digit of the code, as the header declares it (defect fixed in /repo 84c90cb).',
+ 'C20': 'PREC follows the last assignment to NEXP; blanks of the stamp become zeros before parsing.',
+}
 NA = {}
 
 CLAIMED.update({
@@ -237,6 +256,8 @@ def main():
             note = note + ' ' + EXTRA5[pid]
         if pid in EXTRA6:
             note = note + ' ' + EXTRA6[pid]
+        if pid in EXTRA7:
+            note = note + ' ' + EXTRA7[pid]
         note = note + ' Generic baseline-relative rules over the anchored files (pncstatic/generic.py): unused parameters, read mutable defaults, collapsed element-wise choices, uncalled methods, one-shot iterators, module and class state, truthiness defaults of numeric options, broken swaps, un-adapted sibling statements. Clauses added wave by wave are listed in DESIGN section 4.'
         mod = importlib.import_module('pncstatic.rules.%s' % pid.lower())
         checks.append(dict(
